@@ -717,3 +717,53 @@ func recordHpack(r *hk.Run, o hpackObs) {
 	}
 	r.Add(hk.Case{Coq: coq, Desc: map[string]interface{}{"kind": "hpack", "obs": o}}, "hpack|"+o.Spec.Name+"|"+o.Spec.Kind, true)
 }
+
+func recordRewind(r *hk.Run, o rewindObs) {
+	where := "rewind:" + o.Spec.Name + ":" + o.Spec.Kind
+	fail := func(sig, what string) { r.Fail(hk.Failure{Sig: sig + ":" + where, What: what, Input: o}) }
+	if o.Harness != "" {
+		fail("harness", "the scripted scenario could not be played: "+o.Harness)
+	} else {
+		want := map[string]string{"cancel": "cause:canceled", "deadline": "cause:deadline"}[o.Spec.Kind]
+		if !o.Returned {
+			fail("hang", "the call did not return after the context had ended inside GetBody")
+		}
+		if o.Call != want {
+			fail("wrong-error", "the call did not fail with an error identifying the cancellation: "+o.Call+" "+o.CallErr)
+		}
+		if o.Closed < o.Bodies {
+			fail("body-not-closed", fmt.Sprintf("%d of the %d request bodies GetBody handed out were never closed (the one obtained for the transport's retry after the peer dropped the re-used connection)", o.Bodies-o.Closed, o.Bodies))
+		}
+		if o.Attempts > 1 {
+			fail("retry-after-cancel", fmt.Sprintf("the request reached the peer %d times although its context had ended before the retry", o.Attempts))
+		}
+		if len(o.Leaked) > 0 {
+			fail("leak", "library goroutines alive afterwards: "+strings.Join(o.Leaked, " | "))
+		}
+		if !o.FollowOK {
+			fail("follow-up", "a follow-up request on the same client failed: "+o.FollowEr)
+		}
+	}
+	r.Count("rewind:" + o.Spec.Kind)
+	coq := ""
+	if o.Harness == "" && o.Returned {
+		if e, ok := coqErr(o.Call); ok {
+			c := map[string]string{"cancel": "CCanceled", "deadline": "CDeadline"}[o.Spec.Kind]
+			closed := hk.CoqBool(o.Closed == o.Bodies)
+			if o.Spec.AtCall >= 2 {
+				// the context ends between the failure of the attempt and the retry
+				// (a context that is not one of the standard library's propagates its end to the transport's
+				// derived context asynchronously: the retry may have started its detached dial before the
+				// end was seen - that connection then sits in the idle pool)
+				post := "[]"
+				if o.Idle == 1 {
+					post = "[(XDialDone true)]"
+				}
+				coq = fmt.Sprintf("H1Case (mkCfg1 true false true) false false [XWrote] [XPeerClose] [(XCancel %s)] %s (mkObs1 (OErr %s) ONone false %s true %s)", c, post, e, hk.CoqNat(o.Idle), closed)
+			} else {
+				coq = fmt.Sprintf("H1Case (mkCfg1 true false true) false false [] [] [(XCancel %s)] [] (mkObs1 (OErr %s) ONone false %s true %s)", c, e, hk.CoqNat(o.Idle), closed)
+			}
+		}
+	}
+	r.Add(hk.Case{Coq: coq, Desc: map[string]interface{}{"kind": "rewind", "obs": o}}, "rewind|"+o.Spec.Name+"|"+o.Spec.Kind, true)
+}
